@@ -649,6 +649,27 @@ theorem preSync_ok (bk : Backend) (F : Store β) (x : Id) (loff : Int) (hx1 : x 
     · exact ⟨hat, hspx, hd1 ▸ Sub.refl _⟩
 
 
+/-- with data under the adopted id, `StartPoint([x])` answers with `x` -/
+theorem startPoint_at_id (bk : Backend) (F : Store β) (x : Id) (hx1 : x ≠ "") (hx2 : x ≠ "?")
+    (h : At bk F x) (d : Data β) (hd : F.curData = some d) : (startPoint bk F x).2.1 = x := by
+  obtain ⟨hc, _, _⟩ := h
+  have hsp := special_false hx1 hx2
+  cases bk with
+  | disk =>
+    simp only [startPoint, hsp, Bool.false_eq_true, if_false]
+    have hg : F.get x = some (some d) := by
+      unfold Store.curData at hd
+      rw [hc] at hd
+      split at hd
+      · next hg => cases hd; exact hg
+      · cases hd
+    rw [hg]
+    simp only
+    have : ¬ latest (some d) < 0 := by simp only [latest]; omega
+    rw [if_neg this]
+  | mem =>
+    simp only [startPoint, hsp, hc, Bool.not_false, Bool.true_and, decide_true, if_true]
+
 @[simp] theorem Out.pre_store (ms : List (Msg β)) (o : Out β) : (Out.pre ms o).store = o.store := rfl
 
 theorem aofRecv_ok {h : Hist β} (bk : Backend) (F1 : Store β) (x : Id) (ms : List (Msg β))
@@ -718,10 +739,13 @@ theorem syncLoop_ok {h : Hist β} (bk : Backend) (L : Leader β) (lost : Nat) (x
           cases bk with
           | disk =>
             rw [delRunId_disk_has (special_false hx1 hx2) (hat.2.1 rfl)]
-            exact ⟨⟨Or.inl rfl, by decide⟩, hf.of_sub (sub_dropKey _ _)⟩
+            refine ⟨⟨Or.inl rfl, ?_⟩, hf.of_sub (sub_dropKey _ _)⟩
+            simp
           | mem =>
             rw [← hat.1, delRunId_mem_cur]
-            exact ⟨⟨fun p hp => by cases hp, fun _ => rfl, by decide⟩, hf.of_sub (Sub.nil _)⟩
+            refine ⟨⟨?_, fun _ => rfl, ?_⟩, hf.of_sub (Sub.nil _)⟩
+            · intro p hp; cases hp
+            · simp
         · exact ⟨hwf, hf⟩
       | hello o hr =>
         rw [hfx] at hr
@@ -730,7 +754,7 @@ theorem syncLoop_ok {h : Hist β} (bk : Backend) (L : Leader β) (lost : Nat) (x
         · exact absurd hr hx2
       | handover o => exact ⟨hwf, hf⟩
       | aof off cs k hid h0 hb =>
-        simp only [respErr, Out.pre_store, Code.info.injEq, reduceCtorEq, if_false, if_true]
+        simp only [respErr, Out.pre_store, reduceCtorEq, if_false, if_true]
         rw [hfx] at hb ⊢
         exact aofSync_ok bk F x _ fin b lost id hx1 hx2 hat off cs k rfl hb hf
       | rdb off base s cs hid hs hb =>
@@ -762,9 +786,244 @@ theorem syncLoop_ok {h : Hist β} (bk : Backend) (L : Leader β) (lost : Nat) (x
             simp only [Option.some.injEq] at hs'
             rw [← hs', List.take_length, hb, hs]
             simp
-          generalize F1.setCur (some ⟨(base : Int).toNat, [], some (cs.flatten.take cs.flatten.length)⟩) = F2 at hat2 hf2 ⊢
-          have hsp := startPoint_ok bk F2 x hx1 hx2 (hat2.wf hx1 hx2)
+          have hcd := setCur_curData F1 (some ⟨(base : Int).toNat, [], some (cs.flatten.take cs.flatten.length)⟩)
+          generalize F1.setCur (some ⟨(base : Int).toNat, [], some (cs.flatten.take cs.flatten.length)⟩) = F2 at hat2 hf2 hcd ⊢
+          have hid2 := startPoint_at_id bk F2 x hx1 hx2 hat2 _ hcd
           have hst := startPoint_at bk F2 x hx1 hx2 hat2
-          sorry
+          rw [hst]
+          exact ih _ _ F2 _ hat2 hid2 hf2
+
+
+theorem session_ok {h : Hist β} (bk : Backend) (L : Leader β) (F : Store β) (ch : List Nat)
+    (cut lost fuel : Nat) (id : Id) (hL : L.Faithful h) (hq : L.cur ≠ "?") (hwf : WF bk F)
+    (hf : FaithfulAt h F.dirs id) :
+    WF bk (session bk L F ch cut lost fuel).store ∧
+      FaithfulAt h (session bk L F ch cut lost fuel).store.dirs id := by
+  unfold session
+  have hs := handle_shape h L hL "" 0 ch
+  generalize L.handle "" 0 ch = rp at hs ⊢
+  obtain ⟨msgs, fin, rest⟩ := rp
+  simp only at hs ⊢
+  cases cut with
+  | zero => exact ⟨hwf, hf⟩
+  | succ b =>
+    cases hs with
+    | silent => exact ⟨hwf, hf⟩
+    | ctl c hc =>
+      rcases hc with rfl | rfl | rfl <;> exact ⟨hwf, hf⟩
+    | hello o _ =>
+      simp only [respErr, Out.pre_store]
+      by_cases hc : L.cur = ""
+      · rw [if_pos hc]; exact ⟨hwf, hf⟩
+      · rw [if_neg hc]
+        have hp := preSync_ok bk F L.cur o hc hq hwf
+        exact syncLoop_ok bk L lost L.cur id hc hq hL fuel b rest _ _ hp.1 hp.2.1 (hf.of_sub hp.2.2)
+    | handover o => exact ⟨hwf, hf⟩
+    | aof off cs k hid h0 hb => exact ⟨hwf, hf⟩
+    | rdb off base s cs hid hs hb => exact ⟨hwf, hf⟩
+
+
+/-! ### contiguity: the follower never opens a writer away from the end of its data -/
+
+theorem respErr_ne_discont {c : Code} {k : Cls} (h : respErr c = some k) : k ≠ .discont := by
+  cases c <;> simp [respErr] at h <;> subst h <;> decide
+
+theorem finCls_ne_discont (f : Fin) : finCls f ≠ .discont := by cases f <;> decide
+
+theorem aofLoop_cls (fin : Fin) (n : Nat) (ms : List (Msg β)) : (aofLoop fin n ms).2.2 ≠ .discont := by
+  induction ms generalizing n with
+  | nil => cases n <;> simp [aofLoop, finCls_ne_discont]
+  | cons m ms ih =>
+    cases n with
+    | zero => simp [aofLoop]
+    | succ n =>
+      simp only [aofLoop]
+      split
+      · next c hc => exact respErr_ne_discont hc
+      · exact ih n
+
+theorem rdbLoop_cls (fin : Fin) (n r : Nat) (ms : List (Msg β)) (c : Cls)
+    (hc : (rdbLoop fin n r ms).2.2 = some c) : c ≠ .discont := by
+  induction ms generalizing n r with
+  | nil =>
+    cases r <;> cases n <;> simp [rdbLoop] at hc <;> subst hc
+    · decide
+    · exact finCls_ne_discont _
+  | cons m ms ih =>
+    cases r with
+    | zero => simp [rdbLoop] at hc
+    | succ r =>
+      cases n with
+      | zero => simp [rdbLoop] at hc; subst hc; decide
+      | succ n =>
+        simp only [rdbLoop] at hc
+        split at hc
+        · next k hk => simp at hc; subst hc; exact respErr_ne_discont hk
+        · exact ih n _ hc
+
+theorem sendData_aof_off (L : Leader β) (off : Int) (ch : List Nat) (m : Msg β)
+    (ms : List (Msg β)) (hm : (L.sendData off ch).msgs = m :: ms) (ha : m.aof = true) :
+    m.offset = off := by
+  unfold Leader.sendData at hm
+  split at hm
+  · simp only [List.cons.injEq] at hm; rw [← hm.1] at ha; simp [ctl] at ha
+  · split at hm
+    · simp only [List.cons.injEq] at hm; rw [← hm.1]
+    · split at hm
+      · simp only [List.cons.injEq] at hm; rw [← hm.1] at ha; simp [ctl] at ha
+      · split at hm
+        · simp only [List.cons.injEq] at hm; rw [← hm.1] at ha; simp at ha
+        · simp only [List.cons.injEq] at hm; rw [← hm.1] at ha; simp [ctl] at ha
+
+/-- a stream announcement never starts before the requested offset -/
+theorem handle_aof_ge (L : Leader β) (rid : Id) (roff : Int) (ch : List Nat) (m : Msg β)
+    (ms : List (Msg β)) (hm : (L.handle rid roff ch).msgs = m :: ms) (ha : m.aof = true) :
+    roff ≤ m.offset := by
+  unfold Leader.handle at hm
+  split at hm
+  · cases hm
+  · split at hm
+    · simp only [List.cons.injEq] at hm; rw [← hm.1] at ha; simp [ctl] at ha
+    · rename_i i0 tl _
+      by_cases h1 : i0 ≠ L.cur
+      · rw [if_pos h1] at hm
+        simp only [List.cons.injEq] at hm; rw [← hm.1] at ha; simp [ctl] at ha
+      · rw [if_neg h1] at hm
+        by_cases h2 : (rid = "" || rid = "?") = true
+        · rw [if_pos h2] at hm
+          simp only [List.cons.injEq] at hm; rw [← hm.1] at ha; simp at ha
+        · rw [if_neg h2] at hm
+          by_cases h3 : i0 ≠ rid
+          · rw [if_pos h3] at hm
+            simp only [List.cons.injEq] at hm; rw [← hm.1] at ha; simp [ctl] at ha
+          · rw [if_neg h3] at hm
+            by_cases h4 : roff - latest L.data > 0
+            · rw [if_pos h4] at hm
+              simp only [List.cons.injEq] at hm; rw [← hm.1] at ha; simp at ha
+            · rw [if_neg h4] at hm
+              rw [sendData_aof_off L _ ch m ms hm ha]
+              split <;> omega
+
+/-- the follower asks for the end of what it holds -/
+def Pos (F : Store β) (fsp : Id × Int) : Prop := ∀ d, F.curData = some d → fsp.2 = (d.right : Int)
+
+/-- `StartPoint([x])` of a follower that has adopted `x` reports the end of its data -/
+theorem startPoint_at_off (bk : Backend) (F : Store β) (x : Id) (hx1 : x ≠ "") (hx2 : x ≠ "?")
+    (h : At bk F x) (d : Data β) (hd : F.curData = some d) :
+    (startPoint bk F x).2 = (x, (d.right : Int)) := by
+  obtain ⟨hc, _, _⟩ := h
+  have hsp := special_false hx1 hx2
+  cases bk with
+  | disk =>
+    simp only [startPoint, hsp, Bool.false_eq_true, if_false]
+    have hg : F.get x = some (some d) := by
+      unfold Store.curData at hd
+      rw [hc] at hd
+      split at hd
+      · next hg => cases hd; exact hg
+      · cases hd
+    rw [hg]
+    simp only
+    have : ¬ latest (some d) < 0 := by simp only [latest]; omega
+    rw [if_neg this]
+    rfl
+  | mem =>
+    simp only [startPoint, hsp, hc, Bool.not_false, Bool.true_and, decide_true, if_true, hd, latest]
+
+theorem aofSync_nodiscont (bk : Backend) (F : Store β) (x : Id) (m : Msg β) (ms : List (Msg β))
+    (fin : Fin) (budget lost : Nat) (hx1 : x ≠ "") (hx2 : x ≠ "?") (hat : At bk F x)
+    (hpos : ∀ d, F.curData = some d → (d.right : Int) ≤ m.offset) :
+    (aofSync bk F x m ms fin budget lost).cls ≠ .discont := by
+  simp only [aofSync]
+  rw [startPoint_at bk F x hx1 hx2 hat]
+  have hrecv : ∀ (F1 : Store β), (∀ d, F1.curData = some d → (d.right : Int) = m.offset) →
+      (aofRecv F1 m.offset.toNat ms fin budget lost).cls ≠ .discont := by
+    intro F1 h1
+    unfold aofRecv
+    simp only
+    split
+    · next hw =>
+      exfalso
+      unfold aofWrite at hw
+      split at hw
+      · cases hw
+      · next d hd =>
+        have := h1 d hd
+        rw [if_pos (by omega)] at hw
+        cases hw
+    · exact aofLoop_cls _ _ _
+  cases hcd : F.curData with
+  | none =>
+    split
+    · apply hrecv
+      intro d hd
+      rw [(reset_at bk F x hx1 hx2 hat).2.2] at hd; cases hd
+    · apply hrecv
+      intro d hd; rw [hcd] at hd; cases hd
+  | some d =>
+    have hle := hpos d hcd
+    rw [startPoint_at_off bk F x hx1 hx2 hat d hcd]
+    by_cases hgt : m.offset > (d.right : Int)
+    · have : (decide (m.offset > (d.right : Int)) && decide (x ≠ "?")) = true := by simp [hgt, hx2]
+      simp only [this, if_true]
+      apply hrecv
+      intro d' hd'
+      rw [(reset_at bk F x hx1 hx2 hat).2.2] at hd'; cases hd'
+    · have : (decide (m.offset > (d.right : Int)) && decide (x ≠ "?")) = false := by simp [hgt]
+      simp only [this, Bool.false_eq_true, if_false]
+      apply hrecv
+      intro d' hd'
+      rw [hcd] at hd'; cases hd'
+      omega
+
+theorem syncLoop_nodiscont (bk : Backend) (L : Leader β) (lost : Nat) (x : Id)
+    (hx1 : x ≠ "") (hx2 : x ≠ "?") :
+    ∀ (fuel budget : Nat) (ch : List Nat) (F : Store β) (fsp : Id × Int), At bk F x → fsp.1 = x →
+      Pos F fsp → (syncLoop bk L lost x fuel budget ch F fsp).cls ≠ .discont := by
+  intro fuel
+  induction fuel with
+  | zero => intro budget ch F fsp _ _ _; simp [syncLoop]
+  | succ fuel ih =>
+    intro budget ch F fsp hat hfx hpos
+    unfold syncLoop
+    have hge := handle_aof_ge L fsp.1 fsp.2 ch
+    generalize L.handle fsp.1 fsp.2 ch = rp at hge ⊢
+    obtain ⟨msgs, fin, rest⟩ := rp
+    simp only at hge ⊢
+    cases budget with
+    | zero => simp
+    | succ b =>
+      cases msgs with
+      | nil => exact finCls_ne_discont _
+      | cons m ms =>
+        simp only [Out.pre]
+        split
+        · next c hc => exact respErr_ne_discont hc
+        · split
+          · simp
+          · split
+            · next ha =>
+              rw [hfx]
+              apply aofSync_nodiscont bk F x m ms fin b lost hx1 hx2 hat
+              intro d hd
+              have := hge m ms rfl ha
+              rw [hpos d hd] at this
+              exact this
+            · rw [hfx]
+              have hr := reset_at bk F x hx1 hx2 hat
+              generalize setRunId bk (delRunId bk F x) x = F1 at hr ⊢
+              split
+              · next c hc => exact rdbLoop_cls _ _ _ _ c hc
+              · have hat2 := setCur_at bk F1 x (some ⟨m.offset.toNat, [], some ((rdbLoop fin b m.size.toNat ms).2.1.take m.size.toNat)⟩) hr.1
+                have hcd := setCur_curData F1 (some ⟨m.offset.toNat, [], some ((rdbLoop fin b m.size.toNat ms).2.1.take m.size.toNat)⟩)
+                generalize F1.setCur (some ⟨m.offset.toNat, [], some ((rdbLoop fin b m.size.toNat ms).2.1.take m.size.toNat)⟩) = F2 at hat2 hcd ⊢
+                have hoff := startPoint_at_off bk F2 x hx1 hx2 hat2 _ hcd
+                have hst := startPoint_at bk F2 x hx1 hx2 hat2
+                simp only
+                rw [hst]
+                apply ih _ _ F2 _ hat2 (by rw [hoff])
+                intro d hd
+                rw [hcd] at hd; cases hd
+                rw [hoff]
 
 end GunYu.Replica
